@@ -127,7 +127,7 @@ def build(e, cfg):
         # ---- index tables ----
         kk = 2      # same table width in every probe (a sorter setting), entries may repeat
         k2 = 2
-        if sym_ch:
+        if sym_ch or cfg.get('sym_tables'):
             pci = [e.int('pci%d_%d' % (p, k), 0, C - 1) for k in range(T * kk)]
             tfi = [e.int('tfi%d_%d' % (p, k), 0, T - 1) for k in range(T * k2)]
         else:
